@@ -71,3 +71,28 @@ Example C05_concrete :
   Forall wf_event ex_events /\ (length (all_times ex_events) < 5)%nat /\ length (epochs 2 ex_events 5) = 3%nat.
 Proof. destruct ex_hypotheses as [H1 [H2 _]]. split; [exact H1|split; [exact H2|vm_compute; reflexivity]]. Qed.
 Print Assumptions C05_concrete.
+
+(* ---- the SOURCE of the epoch generator and of the discrete event class (phasegen/demography.py, pinned on every run by
+   translate/demography2coq.py into gen/DemographyGen.v): the generator yields epochs without gaps, a discrete event ends the candidate
+   epoch at its first change time inside (start, end] and changes neither time when it is applied ---- *)
+From Coq Require Import String.
+From PG Require Import gen.NpConfigs gen.NpDemography gen.DemographyGen proofs.GenDemographyEquiv.
+Theorem C05_demography_py_epochs_are_consecutive :
+  forall (Ev : Type) (ev_broadcast ev_apply : Ev -> epoch_val -> epoch_val) (events : list Ev),
+    (forall e ep, ev_start (ev_broadcast e ep) = ev_start ep) -> (forall e ep, ev_start (ev_apply e ep) = ev_start ep) ->
+  forall fuel prev,
+    match Demography_epochs_loop Ev ev_broadcast ev_apply events fuel prev with [] => True | e :: _ => ev_start e = fin_end prev end /\
+    (forall pre a b post, Demography_epochs_loop Ev ev_broadcast ev_apply events fuel prev = pre ++ a :: b :: post ->
+                          ev_start b = fin_end a /\ ev_end a <> None).
+Proof. exact gen_epochs_consecutive. Qed.
+Theorem C05_demography_py_discrete_broadcast : forall times ep t0,
+  ev_start (DiscreteDemographicEvent_broadcast times ep) = ev_start ep /\
+  (ev_end (DiscreteDemographicEvent_broadcast times ep) = Some t0 ->
+   ev_end ep = Some t0 \/ ((ev_start ep < t0)%Q /\ le_end t0 (ev_end ep) = true /\ (0 < t0)%Q /\ In t0 times)).
+Proof. intros times ep t0. split; [apply discrete_broadcast_start | apply discrete_broadcast_shortens]. Qed.
+Theorem C05_demography_py_discrete_apply_keeps_the_times : forall times ps ms ep,
+  ev_start (DiscreteRateChanges_apply times ps ms ep) = ev_start ep /\ ev_end (DiscreteRateChanges_apply times ps ms ep) = ev_end ep.
+Proof. exact discrete_apply_times. Qed.
+Print Assumptions C05_demography_py_epochs_are_consecutive.
+Print Assumptions C05_demography_py_discrete_broadcast.
+Print Assumptions C05_demography_py_discrete_apply_keeps_the_times.
